@@ -15,6 +15,9 @@ package server
 //@ func (*apiServer).enforcePolicy serves C15
 //@   returns (ok, err)
 //@   ensures [asks-the-policy] err == nil ==> ok == permitted(boxed(subject), boxed(object), boxed(action))
+// (authorisations run concurrently under the READ lock: what is handed to the enforcer - which reads it lazily, rule by
+//  rule - belongs to this call alone, it is not memory another call may be writing)
+//@   call Enforce requires [the-request-is-this-call's-own] fresh(arg1) && len(arg1) == 3 && arg1[0] == boxed(subject) && arg1[1] == boxed(object) && arg1[2] == boxed(action)
 
 //@ func (*apiServer).ensureAuthorizationPermission serves C15
 //@   requires a != nil && a.Server != nil && a.config != nil
